@@ -94,11 +94,17 @@ def features(case) -> list[str]:
             f.add("zero-utility")
         if n["t"] == "scale" and n["f"] == 0:
             f.add("zero-utility")
-    names = {}
-    for path, n in oracle.leaves(case["tree"]):
+    # a task name may be shared by the alternatives under one Max, nowhere else
+    groups = {}
+
+    def go(n, path, parent_kind):
         if n["t"] == "choose":
-            names.setdefault(n["name"], set()).add(path[:-1])
-    if any(len(v) > 1 for v in names.values()):
+            groups.setdefault(n["name"], []).append(path[:-1] if parent_kind == "max" else path)
+        for i, c in enumerate(n.get("ch", [])):
+            go(c, path + (i,), n["t"])
+
+    go(case["tree"], (), None)
+    if any(len(set(v)) > 1 for v in groups.values()):
         f.add("task-name-shared-across-subtrees")
     return sorted(f)
 
@@ -214,7 +220,12 @@ class Batch:
         dumps.update(cxx.run([j for j in jobs if j[1]["passes"] & 4], watchdog=True))
         lean = {}
         if self.use_lean:
-            reqs = [dict(case) for _, case in cases]
+            reqs = []
+            for _, case in cases:
+                r = dict(case)
+                # the Lean brute force is a plain product enumeration: only for small spaces
+                r["semopt"] = oracle.search_space(case) <= (3000 if tier == "quick" else 20000)
+                reqs.append(r)
             for (cid, _), rep in zip(cases, common.run_driver(reqs)):
                 lean[cid] = rep
         plan = []  # (jobid, case, passes, model, [(kind, assignment)], opt)
@@ -315,6 +326,11 @@ class Batch:
                     self.findings.append((sig, {"case": case, "passes": ps, "assignment": a, "problems": probs}))
             # optimum against the brute force over schedules
             so = oracle.sem_opt(case)
+            # two independent brute forces (Python oracle, Lean `optUtility`) must agree
+            if ps == 0 and self.use_lean and "semopt" in lean.get(cid, {}) and so is not None:
+                self.count("semopt:lean-vs-python")
+                if lean[cid]["semopt"] != so:
+                    raise RuntimeError(f"brute-force optimum: python {so} vs lean {lean[cid]['semopt']} on {json.dumps(case)}")
             if so is None:
                 self.count("semopt:too-large")
             elif status == "optimal":
